@@ -7,6 +7,8 @@ from ..gen import netgen
 from ..oracles import balance
 
 PROPERTY = "C01"
+READY = True
+TECHNIQUE = "runtime monitoring: Kirchhoff invariant evaluated on the result tables of every converged power flow of a seeded random workload"
 LEVEL = "exploration"
 CASES = {"quick": 900, "thorough": 40000}
 BUDGET = {"quick": 60, "thorough": 1200}
@@ -39,11 +41,26 @@ def classify(net, ac, opts, grp, m, bound):
     if ac and opts.get("algorithm") in ("gs", "fdbx", "fdxb") and opts.get("voltage_depend_loads", True):
         # these solvers work with constant-power loads, the result writer applies the ZIP law
         ex = _zip_excess(net, grp)
-        tol = 10 * bound + 1e-6 * abs(ex)
+        tol = bound + 1e-6 * abs(ex)
         p_ok = abs(m.real - ex.real) <= tol or abs(m.real) <= tol
         q_ok = abs(m.imag - ex.imag) <= tol or abs(m.imag) <= tol
-        if abs(ex) > tol and p_ok and q_ok:
+        if abs(ex) > bound / 2 and p_ok and q_ok:
             return "zip_ignored_by_gs_fd"
+    if not ac:
+        # rundcpp solves with |V| = 1 but reports the voltage set-point at buses with voltage controlling elements, and the
+        # constant-impedance parts of shunts / wards / xwards are written as P_rated * vm_pu^2
+        ex = 0.
+        vm = net.res_bus.vm_pu
+        for el, col in (("ward", "pz_mw"), ("xward", "pz_mw")):
+            t = net[el][net[el].bus.isin(grp) & net[el].in_service]
+            if len(t):
+                ex += float((t[col].values * (vm.loc[t.bus.values].values ** 2 - 1)).sum())
+        t = net.shunt[net.shunt.bus.isin(grp) & net.shunt.in_service]
+        if len(t):
+            v = vm.loc[t.bus.values].values
+            ex += float((net.res_shunt.p_mw.loc[t.index].values * (1 - 1 / v ** 2)).sum())
+        if abs(ex) > bound / 2 and abs(m.real - ex) <= bound + 1e-6 * abs(ex):
+            return "dc_shunt_power_at_vm_setpoint"
     return None
 
 
